@@ -357,6 +357,8 @@ type fwo struct {
 	allowMissing                   bool
 	before, after                  *icpt
 	create, createdCb, genID, idCb bool
+	moreUpdate                     []fld
+	hasMoreUpdate                  bool
 }
 
 func (o *fwo) coq() string {
@@ -366,14 +368,14 @@ func (o *fwo) coq() string {
 		}
 		return vcoq.Some(s())
 	}
-	return vcoq.App("mkFWO",
+	return vcoq.App("mkFWO'",
 		vcoq.OptZ(o.time),
 		coqOptFlds(o.update, o.hasUpdate), coqOptFlds(o.reset, o.hasReset), coqOptFlds(o.more, o.hasMore),
 		vcoq.Bool(o.allWritable), coqOptMsg(o.expected), vcoq.Bool(o.expectAbsent),
 		opt(o.check != nil, func() string { return o.check.coq() }), vcoq.Bool(o.allowMissing),
 		opt(o.before != nil, func() string { return o.before.coq() }),
 		opt(o.after != nil, func() string { return o.after.coq() }),
-		vcoq.Bool(o.create), vcoq.Bool(o.createdCb), vcoq.Bool(o.genID), vcoq.Bool(o.idCb))
+		vcoq.Bool(o.create), vcoq.Bool(o.createdCb), vcoq.Bool(o.genID), vcoq.Bool(o.idCb), coqOptFlds(o.moreUpdate, o.hasMoreUpdate))
 }
 func (o *fwo) js() any {
 	m := map[string]any{}
@@ -385,6 +387,9 @@ func (o *fwo) js() any {
 	}
 	if o.hasReset {
 		m["reset_mask"] = jsFlds(o.reset, true)
+	}
+	if o.hasMoreUpdate {
+		m["more_update_mask"] = jsFlds(o.moreUpdate, true)
 	}
 	if o.hasMore {
 		m["more_writable"] = jsFlds(o.more, true)
@@ -437,6 +442,9 @@ func (o *fwo) opts(cb *cbLog) []resource.WriteOption {
 	}
 	if o.hasUpdate {
 		out = append(out, resource.WithUpdateMask(maskOf(o.update)))
+	}
+	if o.hasMoreUpdate {
+		out = append(out, resource.WithMoreUpdateMask(maskOf(o.moreUpdate)))
 	}
 	if o.hasReset {
 		out = append(out, resource.WithResetMask(maskOf(o.reset)))
@@ -792,6 +800,9 @@ func (g *gen) wopts(forDelete bool) *fwo {
 			o.hasReset, o.reset = true, g.flds(true)
 		}
 		if r.Chance(15) {
+			o.hasMoreUpdate, o.moreUpdate = true, g.flds(false)
+		}
+		if r.Chance(15) {
 			o.hasMore, o.more = true, g.flds(false)
 		}
 		if r.Chance(8) {
@@ -1048,6 +1059,46 @@ func genC01(o *vcoq.Out, r *vcoq.Rand, tier string) error {
 		coq := vcoq.App("CaseC", optFldsW(g), g.idf.coq(), coqSteps(steps))
 		o.Add(vcoq.Case{Coq: coq, Key: coq, NonTrivial: okW && failW, Tags: tags,
 			JSON: map[string]any{"kind": "collection", "writable": jsFlds(g.writable, g.hasW), "id_interceptor": g.idf.coq(), "steps": jsSteps(steps)}})
+	}
+	// a stuck rng: every call sees the same ten candidates (lengths 6..15), so the k-th generated
+	// id collides with the k-1 earlier ones and the 11th call has no candidate left (Aborted)
+	for i := 0; i < 4; i++ {
+		g.config()
+		g.hasW = false
+		if i%2 == 1 {
+			g.idf = &idf{lower: true}
+		} else {
+			g.idf = nil
+		}
+		w := g.newWorld(nil)
+		stuck := make([][]byte, 10)
+		for k := range stuck {
+			b := make([]byte, 6+k)
+			for j := range b {
+				b[j] = byte(0x10*i + 7*k + 3)
+			}
+			stuck[k] = b
+		}
+		var steps []step
+		full := &fop{kind: 1}
+		steps = append(steps, step{full, w.exec(full)})
+		for k := 0; k < 12; k++ {
+			op := &fop{kind: 3, id: "", msg: g.msg(), o: &fwo{genID: true, idCb: true}, cands: stuck}
+			if k%5 == 4 {
+				op = &fop{kind: 2, id: "", msg: g.msg(), o: &fwo{genID: true, idCb: true, create: true}, cands: stuck}
+			}
+			ob := w.exec(op)
+			steps = append(steps, step{op, ob})
+			if ids, ok := ob.js.(map[string]any)["id_callback"].([]string); ok && len(ids) == 1 {
+				get := &fop{kind: 0, id: ids[0]}
+				steps = append(steps, step{get, w.exec(get)})
+			}
+			f := &fop{kind: 1}
+			steps = append(steps, step{f, w.exec(f)})
+		}
+		coq := vcoq.App("CaseC", optFldsW(g), g.idf.coq(), coqSteps(steps))
+		o.Add(vcoq.Case{Coq: coq, Key: coq, NonTrivial: true, Tags: []string{"collection", "rng-exhaustion"},
+			JSON: map[string]any{"kind": "collection", "scenario": "stuck rng: 12 generated-id writes with the same ten candidates", "id_interceptor": g.idf.coq(), "steps": jsSteps(steps)}})
 	}
 	// values
 	nv := 140
@@ -1639,11 +1690,19 @@ func genC08(o *vcoq.Out, r *vcoq.Rand, tier string) error {
 		}
 		tags := []string{"pred:" + strings.SplitN(strings.Trim(ro.include.coq(), "()"), " ", 2)[0]}
 		nb := []int{0, 1, 3, 6}[r.Intn(4)]
-		switch i % 5 {
-		case 3:
+		switch i % 10 {
+		case 3, 8:
 			g.lossyCase(o, ro, nb, r.Range(1, 12)) // without backpressure, slow consumer
 		case 4:
 			g.bookingCase(o) // the booking server's period predicate, ListBookings vs PullBookings
+		case 9, 2, 7:
+			// predicates on two different fields, so that one write can flip inclusion for both
+			f1 := fld(r.Intn(3))
+			f2 := fld((int(f1) + 1 + r.Intn(2)) % 3)
+			g.twoSubscribersCase(o, fro{include: &pred{kind: 2, f: f1, k: int64(r.Range(1, 3))}},
+				fro{include: &pred{kind: 2, f: f2, k: int64(r.Range(1, 3))}}, nb, r.Range(3, 12))
+		case 5:
+			g.writeDuringSeedCase(o, nb+1)
 		default:
 			g.streamCase(o, nil, ro, nb, r.Range(0, 10), tags)
 		}
@@ -1756,4 +1815,120 @@ func (g *gen) lossyCase(o *vcoq.Out, ro fro, nBefore, nAfter int) {
 	o.Add(vcoq.Case{Coq: coq, Key: coq, NonTrivial: len(stream) >= 2, Tags: []string{"lossy", "pred:" + strings.SplitN(strings.Trim(ro.include.coq(), "()"), " ", 2)[0]},
 		JSON: map[string]any{"kind": "collection-pull-lossy", "read": ro.js(), "writes_while_subscribed": js, "stream": sj, "final_list": jsKVs(final),
 			"id_interceptor": g.idf.coq(), "writable": jsFlds(g.writable, g.hasW)}})
+}
+
+// twoSubscribersCase: two backpressured subscriptions with different predicates on one collection
+// (the bus hands the same change to both); each one's fold must equal List with its own predicate.
+func (g *gen) twoSubscribersCase(o *vcoq.Out, ro1, ro2 fro, nBefore, nAfter int) {
+	w := g.newWorld(nil)
+	for i := 0; i < nBefore; i++ {
+		w.exec(g.writeOp())
+	}
+	ctx, cancel := context.WithCancel(context.Background())
+	defer cancel()
+	type sub struct {
+		mu  sync.Mutex
+		got []ochange
+		ro  fro
+	}
+	subs := []*sub{{ro: ro1}, {ro: ro2}}
+	for k, s := range subs {
+		s, k := s, k
+		ch := w.coll.Pull(ctx, s.ro.opts(true)...)
+		go func() {
+			for c := range ch {
+				if k == 1 {
+					time.Sleep(100 * time.Microsecond) // the later subscriber lags a little behind the first
+				}
+				oc := ochange{id: c.Id, t: c.ChangeTime.UnixNano(), kind: kindCode(c.ChangeType), old: fromProto(c.OldValue), new_: fromProto(c.NewValue), seed: c.SeedValue, last: c.LastSeedValue}
+				s.mu.Lock()
+				s.got = append(s.got, oc)
+				s.mu.Unlock()
+			}
+		}()
+	}
+	var js []any
+	for i := 0; i < nAfter; i++ {
+		op := g.writeOp()
+		if g.r.Chance(70) {
+			op = &fop{kind: 2, id: idAlphabet[g.r.Intn(2)], msg: fmsg{int64(g.r.Range(0, 4)), int64(g.r.Range(0, 4)), int64(g.r.Range(0, 4))}, o: &fwo{create: true}}
+			op.cands = g.cands(false)
+		}
+		w.exec(op)
+		js = append(js, op.js())
+	}
+	for k, s := range subs {
+		stream, final := settle(&s.mu, &s.got, func() []kv { return w.list(s.ro) })
+		it := make([]string, len(stream))
+		sj := []any{}
+		for i, c := range stream {
+			it[i] = coqOChange(c)
+			sj = append(sj, jsOChange(c))
+		}
+		coq := vcoq.App("CaseFold", vcoq.Str(fmt.Sprintf("subscriber %d of 2", k+1)), vcoq.List(it), coqKVs(final))
+		o.Add(vcoq.Case{Coq: coq, Key: coq, NonTrivial: len(stream) >= 2, Tags: []string{"two-subscribers"},
+			JSON: map[string]any{"kind": "two backpressured subscribers with different predicates", "this_subscriber": s.ro.js(), "other_subscriber": subs[1-k].ro.js(),
+				"writes_while_subscribed": js, "stream": sj, "final_list": jsKVs(final)}})
+	}
+}
+
+// writeDuringSeedCase: the include predicate, on its first evaluation, lets another goroutine write an
+// item that starts matching and gives it 30 ms to finish.  The seed is taken under the collection's
+// read lock, so the write cannot land in between: it is either in the seed or delivered as an event.
+func (g *gen) writeDuringSeedCase(o *vcoq.Out, nBefore int) {
+	g.idf, g.hasW = nil, false
+	w := g.newWorld(nil)
+	for i := 0; i < nBefore; i++ {
+		op := &fop{kind: 2, id: idAlphabet[g.r.Intn(3)], msg: fmsg{int64(g.r.Range(0, 4)), 0, 0}, o: &fwo{create: true}}
+		op.cands = g.cands(false)
+		w.exec(op)
+	}
+	pure := &pred{kind: 2, f: fa, k: 2}
+	ro := fro{include: pure}
+	trigger := make(chan struct{})
+	written := make(chan struct{})
+	var once sync.Once
+	go func() {
+		<-trigger
+		w.coll.Update("ab", toProto(fmsg{4, 1, 1}), resource.WithCreateIfAbsent())
+		w.ids["ab"] = true
+		close(written)
+	}()
+	ctx, cancel := context.WithCancel(context.Background())
+	defer cancel()
+	ch := w.coll.Pull(ctx, resource.WithBackpressure(true), resource.WithInclude(func(id string, m proto.Message) bool {
+		once.Do(func() {
+			close(trigger)
+			select {
+			case <-written:
+			case <-time.After(30 * time.Millisecond):
+			}
+		})
+		return pure.eval(id, m)
+	}))
+	var mu sync.Mutex
+	var got []ochange
+	go func() {
+		for c := range ch {
+			oc := ochange{id: c.Id, t: c.ChangeTime.UnixNano(), kind: kindCode(c.ChangeType), old: fromProto(c.OldValue), new_: fromProto(c.NewValue), seed: c.SeedValue, last: c.LastSeedValue}
+			mu.Lock()
+			got = append(got, oc)
+			mu.Unlock()
+		}
+	}()
+	once.Do(func() { close(trigger) }) // an empty collection never evaluates the predicate while seeding
+	select {
+	case <-written:
+	case <-time.After(5 * time.Second):
+	}
+	stream, final := settle(&mu, &got, func() []kv { return w.list(ro) })
+	it := make([]string, len(stream))
+	sj := []any{}
+	for i, c := range stream {
+		it[i] = coqOChange(c)
+		sj = append(sj, jsOChange(c))
+	}
+	coq := vcoq.App("CaseFold", vcoq.Str("write during seed"), vcoq.List(it), coqKVs(final))
+	o.Add(vcoq.Case{Coq: coq, Key: coq, NonTrivial: len(stream) >= 1, Tags: []string{"write-during-seed"},
+		JSON: map[string]any{"kind": "a write released while the include predicate filters the seed", "read": ro.js(), "stream": sj, "final_list": jsKVs(final)}})
 }
